@@ -240,6 +240,9 @@ AddScalar ==
         \E st \in {x \in ScalarStyles : Admissible(ctx, t, x)} :
         \E an \in B({0, 1}), vr \in (IF st \in {"double", "fold"} THEN B({0, 1}) ELSE {0}), cm \in cms, pre \in pres :
           /\ Cost(an, cm, pre, vr) <= Budget
+          \* documented loader limitation (limitations.md, KeyWithoutValue `b #c: d`): a root
+          \* plain scalar followed by a comment that contains `: ` is not generated
+          /\ (role = "root" /\ st = "plain" => cm # 2)
           /\ dec' = dec + Cost(an, cm, pre, vr)
           /\ \E ch \in (IF st \in {"lit", "fold"} THEN ChompT[t] ELSE {""}) :
                Push(Node("str", par, role, t, st, ch, vr, an, 0, cm, pre), FALSE)
